@@ -200,6 +200,11 @@ class Interp:
             if p is not NULL and not isinstance(p, RObj):
                 self.throw_error("TypeError", "Object prototype may only be an Object or null")
             if isinstance(o, RObj):
+                x = None if p is NULL else p
+                while x is not None:
+                    if x is o:
+                        self.throw_error("TypeError", "Cyclic __proto__ value")
+                    x = x.proto
                 o.proto = None if p is NULL else p
             return o
         def o_values(this, args):
@@ -555,7 +560,16 @@ class Interp:
                     return UNDEF
                 return self.call(slot[1], recv, [])
             o = o.proto
+        if key == "__proto__" and self._inherits_object_proto(base):
+            return NULL if base.proto is None else base.proto
         return UNDEF
+
+    def _inherits_object_proto(self, o):
+        while o is not None:
+            if o is self.object_proto:
+                return True
+            o = o.proto
+        return False
 
     def put(self, base, key, value):
         """[[Set]] in strict mode (ordinary objects)."""
@@ -575,6 +589,17 @@ class Interp:
                     base.elems.append(value)
                     return
                 raise Unsupported("array write beyond length (documented engine restriction)")
+        if key == "__proto__" and key not in base.props and self._inherits_object_proto(base):
+            if value is NULL:
+                base.proto = None
+            elif isinstance(value, RObj):
+                o = value
+                while o is not None:
+                    if o is base:
+                        self.throw_error("TypeError", "Cyclic __proto__ value")
+                    o = o.proto
+                base.proto = value
+            return
         # accessor anywhere on the chain?
         o = base
         while o is not None:
